@@ -15,12 +15,20 @@ Definition scbp (m : qmap) (q : positive) : option bool :=
 Definition names (s s' : st) : list positive :=
   map fst (map_to_list (srv s)) ++ map fst (map_to_list (srv s')) ++ map fst (map_to_list (lst s)).
 
-(* the request an EProc event processes, with the lister's object for its queue *)
+(* the request a processing event (with or without an injected API fault) processes, with
+   the lister's object for its queue *)
 Definition proc_of (s : st) (e : ev) : option (req * qobj) :=
   match e with
-  | EProc i => match nth_error (wq s) i with
-               | Some r => match lst s !! r_q r with Some v => Some (r, v) | None => None end
-               | None => None end
+  | EProc i | EProcF i _ =>
+      match nth_error (wq s) i with
+      | Some r => match lst s !! r_q r with Some v => Some (r, v) | None => None end
+      | None => None end
+  | _ => None
+  end.
+(* the same for a step WITHOUT an injected fault (the laws that promise a result) *)
+Definition proc_of_clean (s : st) (e : ev) : option (req * qobj) :=
+  match e with
+  | EProc _ => proc_of s e
   | _ => None
   end.
 
@@ -78,7 +86,7 @@ Definition law_sync_moves (s : st) (e : ev) (s' : st) : bool :=
 (* L2: processing a Close request on an up-to-date, not yet closed, non-root queue
    without error leaves it Closing when the index has PodGroups, Closed when empty *)
 Definition law_close_result (s : st) (e : ev) (s' : st) (o : outcome) : bool :=
-  match proc_of s e with
+  match proc_of_clean s e with
   | Some (r, v) =>
       let q := r_q r in
       implb (bool_decide (r_act r = AClose) && bool_decide (o = OOk) && negb (bool_decide (q = root)) &&
@@ -99,7 +107,7 @@ Definition emitted (s s' : st) : list req := skipn (length (wq s) - 1) (wq s').
 
 (* L4: closing a parent marks and closes its (lister) children that are not closed *)
 Definition law_close_propagates (s : st) (e : ev) (s' : st) (o : outcome) : bool :=
-  match proc_of s e with
+  match proc_of_clean s e with
   | Some (r, v) =>
       let q := r_q r in
       implb (bool_decide (r_act r = AClose) && bool_decide (o = OOk) && negb (bool_decide (q = root)) &&
@@ -115,7 +123,7 @@ Definition law_close_propagates (s : st) (e : ev) (s' : st) (o : outcome) : bool
 (* L5: re-opening enqueues Open for exactly the (lister) children marked
    closed-by-parent, opens the queue and clears its own marker *)
 Definition law_reopen_exact (s : st) (e : ev) (s' : st) (o : outcome) : bool :=
-  match proc_of s e with
+  match proc_of_clean s e with
   | Some (r, v) =>
       let q := r_q r in
       implb (bool_decide (r_act r = AOpen) && bool_decide (o = OOk) &&
@@ -167,7 +175,7 @@ Definition parent_blocks (s : st) (v : qobj) : bool :=
               match lst s !! p with Some po => is_closedish (q_state po) | None => true end
   end.
 Definition law_no_open_under_closed_parent (s : st) (e : ev) (s' : st) (o : outcome) : bool :=
-  match proc_of s e with
+  match proc_of_clean s e with
   | Some (r, v) =>
       implb (bool_decide (r_act r = AOpen) && parent_blocks s v &&
              negb (bool_decide (q_state v = SOpen)) && negb (bool_decide (q_state v = SEmpty)))
@@ -181,7 +189,7 @@ Definition law_no_open_under_closed_parent (s : st) (e : ev) (s' : st) (o : outc
    lister-child) followed by at most the retry of the processed request *)
 Definition law_workqueue (s : st) (e : ev) (s' : st) (o : outcome) : bool :=
   match e with
-  | EProc i =>
+  | EProc i | EProcF i _ =>
       match nth_error (wq s) i with
       | None => bool_decide (wq s' = wq s) && bool_decide (o = OIdle)
       | Some r =>
@@ -298,7 +306,7 @@ Definition law_closed_only_when_really_empty (s : st) (e : ev) (s' : st) : bool 
 
 (* closing an up-to-date, not yet closed, non-root queue that still has PodGroups yields Closing *)
 Definition law_close_with_real_pgs (s : st) (e : ev) (s' : st) (o : outcome) : bool :=
-  match proc_of s e with
+  match proc_of_clean s e with
   | Some (r, v) =>
       let q := r_q r in
       implb (bool_decide (r_act r = AClose) && bool_decide (o = OOk) && negb (bool_decide (q = root)) &&
@@ -325,3 +333,73 @@ Definition open_child_under_closed_parent (s : st) (c : positive) : bool :=
 Definition law_children_follow_closed_parent (s' : st) : bool :=
   implb (caught_up s')
         (forallb (fun c => negb (open_child_under_closed_parent s' c)) (map fst (map_to_list (srv s')))).
+
+(* ---------- which quiescent failures belong to the two KNOWN classes ----------
+   A quiescent failure is attributed to a known finding only if the history contains the
+   step that is the finding's mechanism; every other quiescent failure is reported. *)
+Definition mem_pos (c : positive) (l : list positive) : bool := existsb (Pos.eqb c) l.
+
+(* C13-quiescent-marked-child-stuck: (a) a propagated Open for c is processed while the
+   lister shows c open (plain sync: nothing written, marker kept); (b) p is re-opened while
+   the lister does not show the marker a server-child carries; (c) see below *)
+Definition exc_stuck (s : st) (e : ev) : list positive :=
+  match proc_of s e with
+  | Some (r, v) =>
+      match r_act r with
+      | AOpen =>
+          (if bool_decide (r_ev r = EvNone) && (bool_decide (q_state v = SOpen) || bool_decide (q_state v = SEmpty))
+           then [r_q r] else []) ++
+          (* (c) the child's Open is refused because the lister still shows the re-opened parent
+             closed / closing (retried; given up when the retry budget is exhausted) *)
+          (if match q_parent v with
+              | Some p => match sst (lst s) p with Some x => is_closedish x | None => false end &&
+                          negb (match sst (srv s) p with Some x => is_closedish x | None => true end)
+              | None => false
+              end
+           then [r_q r] else []) ++
+          flat_map (fun cco : positive * qobj =>
+                      if bool_decide (q_parent (snd cco) = Some (r_q r)) && cbp_true (q_ann (snd cco)) &&
+                         negb (match lst s !! fst cco with Some lo => cbp_true (q_ann lo) | None => false end)
+                      then [fst cco] else [])
+                   (map_to_list (srv s))
+      | _ => []
+      end
+  | None => []
+  end.
+
+(* C13-quiescent-open-child-under-closed-parent: (D) c is really opened while the server
+   shows its parent closed / closing but the lister does not; (E) p is closed while a
+   server-child is not closed but the lister shows it closed / closing (or not at all) *)
+Definition exc_open (s : st) (e : ev) : list positive :=
+  match proc_of s e with
+  | Some (r, v) =>
+      match r_act r with
+      | AOpen =>
+          if negb (bool_decide (q_state v = SOpen)) && negb (bool_decide (q_state v = SEmpty)) &&
+             match q_parent v with
+             | Some p => match sst (srv s) p with Some x => is_closedish x | None => false end &&
+                         negb (match sst (lst s) p with Some x => is_closedish x | None => false end)
+             | None => false
+             end
+          then [r_q r] else []
+      | AClose =>
+          if is_closedish (q_state v) then [] else
+          flat_map (fun cco : positive * qobj =>
+                      if bool_decide (q_parent (snd cco) = Some (r_q r)) && negb (is_closedish (q_state (snd cco))) &&
+                         match lst s !! fst cco with Some lo => is_closedish (q_state lo) | None => true end
+                      then [fst cco] else [])
+                   (map_to_list (srv s))
+      | _ => []
+      end
+  | None => []
+  end.
+
+(* X = every quiescent failure is one of the known class; Y = no quiescent failure of the known class *)
+Definition law_stuck_X (exc : list positive) (s' : st) : bool :=
+  implb (caught_up s') (forallb (fun c => negb (stuck_child s' c) || mem_pos c exc) (map fst (map_to_list (srv s')))).
+Definition law_stuck_Y (exc : list positive) (s' : st) : bool :=
+  implb (caught_up s') (forallb (fun c => negb (stuck_child s' c && mem_pos c exc)) (map fst (map_to_list (srv s')))).
+Definition law_openchild_X (exc : list positive) (s' : st) : bool :=
+  implb (caught_up s') (forallb (fun c => negb (open_child_under_closed_parent s' c) || mem_pos c exc) (map fst (map_to_list (srv s')))).
+Definition law_openchild_Y (exc : list positive) (s' : st) : bool :=
+  implb (caught_up s') (forallb (fun c => negb (open_child_under_closed_parent s' c && mem_pos c exc)) (map fst (map_to_list (srv s')))).
